@@ -161,3 +161,34 @@ PROPS["C13"] = {
                   "(evidence.observed.production:* counts how often each was printed).",
     "level_note": "Held on generated + shipped documents; repo fixtures that do not parse are counted as not-accepted and skipped.",
 }
+
+PROPS["C06"] = {
+    "shards": 16,
+    "quick_budget_s": 60,
+    "thorough_budget_s": 900,
+    "stuck_s": 300,
+    "floors": {"any": {"histories": 1000, "invariant-checks": 20000, "exhaustive-histories": 100000, "op:remove": 2000,
+                       "op:unregister": 500, "op:set:ok": 300, "op:unset:ok": 50, "op:export:ok": 1000, "op:unexport": 500,
+                       "op:define:ok": 1000, "op:alias:ok": 300, "encode-probe:ok": 2000}},
+    "rule": "Random part: libraries of 2-3 WIT-derived components (1-3 interfaces, no resources, no versions) and a universe of 8 "
+            "definable types (record, list<record>, option<list<record>>, tuple<record,list>, alias, primitive alias, func type, "
+            "resource); histories of 8-200 operations drawn over live identifiers from register/unregister package, define_type, "
+            "import (kind of an argument / plain type), instantiate, alias_instance_export, set/unset argument (biased to "
+            "type-compatible sources), export (valid, invalid and import-only names), unexport, set_node_name, remove_node. After "
+            "EVERY operation: return value / error variant vs reference model M1, full query snapshot (nodes with kind, package, "
+            "name, export name, arguments; get_export for every name ever used; imports(); packages()) vs the model, and the "
+            "guarded verif_invariants() hook; every 8 operations an encode probe on a clone. Exhaustive part: after a fixed prefix "
+            "(register 2 packages, instantiate both) EVERY sequence of 5 (quick) / 6 (thorough) applicable operations over a tiny "
+            "universe (2 export names, 3 definable types, all live nodes) with the same checks. Non-trivial: a history with a "
+            "removal/unregister after an edge was created; distinct by hash of the operation-kind sequence.",
+    "exhaustive_note": "exhaustive: true refers to the depth-bounded enumeration over the tiny universe only (evidence.notes.exhaustive_depth); the random long histories are sampled",
+    "assumptions": ["type-compatibility verdicts of set_instantiation_argument are taken from the implementation (C07 decides them); the model decides everything else",
+                    "'unexport' means the node is no longer exported under any name; 'remove' frees every name the node held",
+                    "the encode probe stays out of states where a defined type mentions the record t0 while t0 is undefined (the API cannot express that requirement)"],
+    "technique": "runtime monitor: lock-step reference model + guarded invariant hook + encode probe over random long and exhaustively enumerated short operation histories",
+    "level_text": "Every public mutation is mirrored in a naive model and every query compared after each step; the hook checks the "
+                  "private bookkeeping (satisfied set = incoming argument edges, maps reference live nodes, package table) at each "
+                  "quiescent point. Stale state that only shows after particular interleavings (set-remove-set, export twice-"
+                  "unexport-remove, diamond dependants) is reached both by enumeration of all short histories and by long random ones.",
+    "level_note": "Depth bound on the exhaustive part; universe sizes as stated. Hook compiled in through cargo feature `verif`.",
+}
